@@ -18,10 +18,16 @@ D = dt.datetime
 PERIODS = [(D(2019, 12, 31, 22, 0), D(2020, 1, 1, 2, 0)),
            (D(2020, 2, 29, 6, 0), D(2020, 2, 29, 12, 0)),
            (D(2020, 3, 1, 0, 0), D(2020, 3, 1, 6, 0)),
-           (D(2020, 3, 1, 0, 0), D(2020, 3, 1, 0, 0))]
+           (D(2020, 3, 1, 0, 0), D(2020, 3, 1, 0, 0)),
+           # the hours of period 1 on the next day: with the same placeholder
+           # value a file of the same base name in another directory (only
+           # used by the threads part, see TWINS)
+           (D(2020, 3, 1, 6, 0), D(2020, 3, 1, 12, 0))]
 # what a file can be: (period index, value of the user placeholder {sat})
 SLOTS = [(0, "A"), (1, "A"), (1, "B"), (2, "B")]
 INSTANT = (3, "A")
+# two files whose names differ only in the directory
+TWINS = [(1, "A"), (4, "A")]
 PAYLOADS = [{"v": 1, "c": 0}, {"v": 2, "c": 0}]
 # entry a writer adds to the payload when it is called with the option tag=
 TAG = "t"
@@ -210,6 +216,13 @@ def roots():
         full[name_of("A", slot)] = File("A", slot,
                                         dict(PAYLOADS[1 if si == 2 else 0]))
     return {"empty": {}, "full": full}
+
+
+def twins_root():
+    """Two files of A with the same base name in different directories and
+    different contents (root of the threads part only)."""
+    return {name_of("A", slot): File("A", slot, dict(PAYLOADS[i]))
+            for i, slot in enumerate(TWINS)}
 
 
 def plan(depth, alphabet="layout"):
